@@ -26,6 +26,14 @@ binding:   (a) spec -> code: the CASE lines (a checksum-selected sample of the b
                temporaries, an object MUTATED through every string of the trace (full_version and
                component-wise), then everything again on partly re-created objects -- and every recorded
                comparison is validated by TLC against the string the object holds at that moment
+           size dimension (notes/SIZE_STRESS.md), in both legs: every 4th replayed case is concretized by
+               a SOUND size transformation of the abstract pair (argument at stress_part): every non-digit
+               character repeated k times (k up to 50: long letter runs, '~' chains), z zeros appended to
+               every digit run (all numbers x 10^z, z up to 30: beyond 2^64), and leading zeros prepended to
+               digit runs (runs of up to 40 digits); a quarter of the recorded traces is built from digit
+               runs of 1..40 digits with 0..39 leading zeros around 2^31 2^32 2^53 2^63 2^64 10^18 10^19,
+               letter runs / '~' chains up to 100, 50+ alternations and long epochs (<= 120 code points,
+               validated by TLC directly: the reference compares digit runs as strings)
            (c) `dpkg --compare-versions` as a second, external oracle on a sample of the recorded pairs
                (thorough: ~5000, quick: a handful); skipped with a note when dpkg is absent
 spec-level negative controls (re-run in every check, TLC must report the violation):
@@ -56,6 +64,7 @@ MANIFEST = dict(
 
 WORKERS = min(8, core.NCPU)
 JAVA = ["-Xmn256m"]          # bounded young generation: the interpreter allocates a lot of short-lived values
+JAVA_SHORT = JAVA + ["-XX:TieredStopAtLevel=1"]      # runs of a few seconds: the C2 compiler costs more than it gains
 OPKEYS = ("cmp", "lt", "le", "eq", "ne", "ge", "gt")
 EXC = 99                     # logged instead of a sign when the code under test raised
 
@@ -189,23 +198,72 @@ def battery(pool, sa, sb, fwd, rev, heq, variant):
 
 # ------------------------------------------------------------------ concretization
 
-def concretize(rng, seqs, canonical):
+def concretize(rng, seqs, canonical, stress=None):
     """substitute the code points of the abstract strings of one case (jointly) by order-isomorphic
     ones: '0' stays '0', the other digits map increasingly into 1..9, letters increasingly into
     A..Za..z (upper case sorts before lower case, as in the model), '+' '-' '.' ':' '~' stay.  Class
     and relative order of all characters are kept, hence dpkg's sign and the canonical-key equality
-    are unchanged."""
+    are unchanged.  stress = (k, z, pad): additionally the size transformation of stress_version."""
     if canonical:
-        return [text(x) for x in seqs]
-    used = sorted(set(c for x in seqs for c in x))
-    dig = [c for c in used if 49 <= c <= 57]
-    let = [c for c in used if chr(c).isalpha()]
-    m = {}
-    for c, d in zip(dig, sorted(rng.sample(DIGITS19, len(dig)))):
-        m[c] = d
-    for c, d in zip(let, sorted(rng.sample(LETTERS, len(let)))):
-        m[c] = d
-    return ["".join(m.get(c, chr(c)) for c in x) for x in seqs]
+        out = [text(x) for x in seqs]
+    else:
+        used = sorted(set(c for x in seqs for c in x))
+        dig = [c for c in used if 49 <= c <= 57]
+        let = [c for c in used if chr(c).isalpha()]
+        m = {}
+        for c, d in zip(dig, sorted(rng.sample(DIGITS19, len(dig)))):
+            m[c] = d
+        for c, d in zip(let, sorted(rng.sample(LETTERS, len(let)))):
+            m[c] = d
+        out = ["".join(m.get(c, chr(c)) for c in x) for x in seqs]
+    if stress:
+        k, z, pad = stress
+        out = [stress_version(rng if pad else None, x, k, z) for x in out]
+    return out
+
+
+STRESS_K = [1, 1, 1, 2, 3, 8, 16, 33, 50]            # repetition of every non-digit character
+STRESS_Z = [0, 0, 0, 1, 9, 10, 17, 18, 19, 20, 30]   # zeros appended to every digit run (numbers x 10^z)
+STRESS_PAD = [1, 2, 7, 17, 18, 19, 20, 31, 32, 33, 39]   # leading zeros prepended to a digit run
+MAXRUN = 40
+
+
+def stress_part(rng, part, k, z):
+    """size transformation of ONE component (epoch, upstream or revision), applied with the same
+    (k, z) to every component of every string of a case.  It is SOUND for dpkg's order, i.e. the sign
+    and the canonical-key equality TLC computed for the abstract strings still hold:
+      * every non-digit character is repeated k times: the non-digit phase of verrevcmp compares
+        position by position; both strings now carry k copies of each character, so the phase stays
+        aligned in blocks and the first differing block differs exactly as the single characters did
+        (also against a digit or the end, whose order is 0 in either case); the map is injective;
+      * z zeros are appended to every digit run: every number n becomes n * 10^z, an absent number
+        stays 0 = 0 * 10^z; order and equality of all compared numbers are kept;
+      * (rng given) leading zeros are prepended to some digit runs: the value is unchanged.
+    Run boundaries are never changed (digits stay adjacent to the same characters)."""
+    out = []
+    for m in re.finditer(r"[0-9]+|[^0-9]", part):
+        t = m.group(0)
+        if t[0].isdigit():
+            t = t + "0" * z
+            if rng is not None and rng.random() < 0.5 and len(t) < MAXRUN:
+                t = "0" * min(rng.choice(STRESS_PAD), MAXRUN - len(t)) + t
+            out.append(t)
+        else:
+            out.append(t * k)
+    return "".join(out)
+
+
+def stress_version(rng, v, k, z):
+    ep, up, rev = split(v)         # ':' after the epoch and the last '-' are structure, not payload
+    return join([None if ep is None else stress_part(rng, ep, 1, z), stress_part(rng, up, k, z),
+                 None if rev is None else stress_part(rng, rev, k, z)])
+
+
+def pick_stress(rng, idx, pad=True):
+    """every 4th case gets a size-stressed concretization"""
+    if idx % 4 != 3:
+        return None
+    return rng.choice(STRESS_K), rng.choice(STRESS_Z), pad
 
 
 # ------------------------------------------------------------------ TLC design runs
@@ -220,8 +278,8 @@ def cfg_text(name, **subst):
 
 
 def design_run(ctx, name, stride, offset, module="DpkgVersionMC", tag="CASE"):
-    r = ctx.tlc_must_hold(module, cfg_text(name, EmitStride=stride, EmitOffset=offset),
-                          workers=WORKERS, java_opts=JAVA, want_tags={tag, "OPS"})
+    r = ctx.tlc_must_hold(module, cfg_text(name, EmitStride=stride, EmitOffset=offset), workers=WORKERS,
+                          java_opts=JAVA_SHORT if ctx.tier == "quick" else JAVA, want_tags={tag, "OPS"})
     cases = [tuple(map(_freeze, c)) for c in r.printed.get(tag, [])]
     cases = sorted(set(cases))                       # the workers print in no fixed order
     ops = {row["cmp"]: row for row in r.printed.get("OPS", [])}
@@ -253,12 +311,14 @@ def negative_controls(ctx):
         module, cfg, switch, inv = c
         txt = cfg_text(cfg, **{switch: "TRUE"})
         txt = "\n".join(l for l in txt.splitlines() if not l.startswith("INVARIANT") or l.split()[1] == inv)
-        return core.run_tlc(module, txt, ctx.work, workers=2, java_opts=JAVA, want_tags=set(), timeout=600)
+        return core.run_tlc(module, txt, ctx.work, workers=1, java_opts=JAVA_SHORT, want_tags=set(), timeout=600)
 
-    with ThreadPoolExecutor(max_workers=len(CONTROLS)) as ex:
-        results = list(ex.map(one, CONTROLS))
+    # quick: one control per module, alternating with the seed; thorough: all four
+    todo = CONTROLS if ctx.tier != "quick" else (CONTROLS[0::3] if ctx.seed % 2 == 0 else CONTROLS[1:3])
+    with ThreadPoolExecutor(max_workers=len(todo)) as ex:
+        results = list(ex.map(one, todo))
     out = {}
-    for (module, cfg, switch, inv), r in zip(CONTROLS, results):
+    for (module, cfg, switch, inv), r in zip(todo, results):
         ctx.tlc_runs.append({"module": module, "generated": r.generated, "distinct": r.distinct, "depth": r.depth,
                              "wall_s": round(r.wall, 2), "violated": r.violated, "negative_control": switch})
         if r.violated != inv:
@@ -289,7 +349,8 @@ def replay_cases(ctx, cases, ops, nconc, label):
             per_sign[s] += 1
             ctx.case_seen((a, b), a != b)
             for c in range(nconc):
-                sa, sb = concretize(rng, [a, b], canonical=(c == 0 and (nconc > 1 or idx % 2 == 0)))
+                sa, sb = concretize(rng, [a, b], canonical=(c == 0 and (nconc > 1 or idx % 2 == 0)),
+                                    stress=pick_stress(rng, c0 + idx + c))
                 items.append([a, b, sa, sb, s, h, rv, c0 + idx + c, False])
         for rnd in (0, 1):
             for it in (items if rnd == 0 else reversed(items)):
@@ -408,6 +469,13 @@ def replay_muts(ctx, muts, ops, nconc):
             pool.churn(rng)
         for c in range(nconc):
             sv = concretize(rng, [v1, v2, arg, v1n], canonical=(c == 0 and (nconc > 1 or idx % 2 == 0)))
+            st = pick_stress(rng, idx + c, pad=False)      # no random padding: a must become exactly sv[3]
+            if st:
+                kk, zz, _ = st
+                sv = [stress_version(None, sv[0], kk, zz), stress_version(None, sv[1], kk, zz),
+                      stress_version(None, sv[2], kk, zz) if how == "full" else
+                      stress_part(None, sv[2], 1 if how == "epoch" else kk, zz),
+                      stress_version(None, sv[3], kk, zz)]
             exp0 = (ops[ref0], ops[rev0], ceq0)
             exp1 = (ops[ref1], ops[rev1], ceq1)
             n += 1
@@ -430,13 +498,43 @@ def replay_muts(ctx, muts, ops, nconc):
 
 # ------------------------------------------------------------------ random versions (code -> spec)
 
-def gen_part(rng, extra, lo, hi):
-    """a non-empty run-structured string over [A-Za-z0-9.+~] + extra"""
+BOUNDARY = [0, 9, 10, 99, 100, 2 ** 15, 2 ** 16, 2 ** 31 - 1, 2 ** 31, 2 ** 32 - 1, 2 ** 32, 2 ** 53, 2 ** 53 + 1,
+            2 ** 63 - 1, 2 ** 63, 2 ** 64 - 1, 2 ** 64, 10 ** 18 - 1, 10 ** 18, 10 ** 19 - 1, 10 ** 19, 10 ** 19 + 1, 10 ** 38]
+MAXLEN = 120         # code points of a recorded version: TLC scans them
+
+
+def big_number(rng):
+    """a digit run of 1..40 digits with 0..39 leading zeros: all zeros, boundary values and their
+    neighbours, random 19..40-digit numbers"""
+    k = rng.random()
+    if k < 0.12:
+        return "0" * rng.choice([1, 2, 8, 18, 19, 20, 32, 40])
+    if k < 0.62:
+        d = "%d" % max(0, rng.choice(BOUNDARY) + rng.choice([0, 0, 0, 1, -1, 2]))
+    else:
+        d = rng.choice("123456789") + "".join(rng.choice("0123456789") for _ in range(rng.choice([16, 17, 18, 19, 20, 25, 31, 39]) - 1))
+    d = d[:MAXRUN]
+    z = rng.choice([0, 0, 0, 1, 2, 17, 18, 19, 20, 30, 39])
+    return "0" * min(z, MAXRUN - len(d)) + d
+
+
+def gen_part(rng, extra, lo, hi, big=False):
+    """a non-empty run-structured string over [A-Za-z0-9.+~] + extra; big: size-stressed runs"""
     target = rng.randint(lo, hi)
     out = ""
+    if big and rng.random() < 0.2:                  # many alternations: 50+ runs of one or two characters
+        unit = rng.choice(["1a", "0a", "1.", "a1", "1~", "9z", "01b", "1+2."])
+        out = unit * (rng.choice([25, 26, 30, 33, 50]) if hi >= 60 else max(1, hi // len(unit)))
     while len(out) < target:
         k = rng.random()
-        if k < 0.38:
+        if big and k < 0.45:
+            out += big_number(rng)
+            k = rng.random()
+            out += rng.choice([".", "+", "~", "a", "rc", "", ""]) if k < 0.8 else ""
+        elif big and k < 0.55:
+            out += rng.choice("aZ~.+") * rng.choice([8, 16, 17, 31, 32, 33, 64, 65, 100]) if rng.random() < 0.5 else \
+                "".join(rng.choice(LETTERS) for _ in range(rng.choice([8, 16, 33, 64, 100])))
+        elif k < 0.38:
             out += rng.choice(["0", "00", "1", "9", "10", "09", "010", "2", "123", "0123", "99", "100", "4294967296",
                                "%d" % rng.randrange(10 ** rng.randint(1, 6)),
                                "0" * rng.randint(1, 3) + "%d" % rng.randrange(1000),
@@ -455,11 +553,13 @@ def gen_part(rng, extra, lo, hi):
     return out[:hi] if len(out) > hi else out
 
 
-def gen_version(rng):
+def gen_version(rng, big=False):
     """[epoch, upstream, revision] (None = absent), valid per D2 and outside its unspecified zone"""
     k = rng.random()
     if k < 0.5:
         ep = None
+    elif big and k < 0.75:
+        ep = big_number(rng)[:rng.choice([10, 19, 20, 40])]          # long epochs, with leading zeros
     elif k < 0.95:
         ep = rng.choice(["0", "0", "00", "1", "01", "2", "10", "9", "%d" % rng.randrange(1000)])
     else:
@@ -469,12 +569,16 @@ def gen_version(rng):
         rev = None
     elif k < 0.65:
         rev = rng.choice(["0", "00", "1", "01", "~", "0~", "a", "+", "."])
+    elif big and k < 0.85:
+        rev = gen_part(rng, "", 1, 30, big=True)
     else:
         rev = gen_part(rng, "", 1, 8)
     extra = ("-" if rev is not None else "") + (":" if ep is not None else "")
-    up = gen_part(rng, extra, 1, rng.choice([2, 4, 8, 14, 22]))
+    room = MAXLEN - 2 - len(ep or "") - len(rev or "")
+    up = gen_part(rng, extra, 1, min(room, rng.choice([20, 41, 64, 100])), big=True) if big else \
+        gen_part(rng, extra, 1, rng.choice([2, 4, 8, 14, 22]))
     if rng.random() < 0.75 and not up[0].isdigit():
-        up = rng.choice("0123456789") + up
+        up = rng.choice("0123456789") + up[:-1] if len(up) > 1 else rng.choice("0123456789")
     return [ep, up, rev]
 
 
@@ -494,6 +598,13 @@ def normalize(v):
         up = "0"
     if rev is not None and not rev:
         rev = "0"
+    if ep is not None:
+        ep = ep[:MAXRUN]
+    if rev is not None:
+        rev = rev[:45]
+    room = MAXLEN - 2 - len(ep or "") - len(rev or "")
+    if len(up) > room:                       # any non-empty prefix of an upstream part is one
+        up = up[:room]
     return [ep, up, rev]
 
 
@@ -501,7 +612,7 @@ def near(rng, v):
     """a version close to v: the interesting pairs are the almost-equal ones"""
     v = list(v)
     for _ in range(rng.choice([1, 1, 1, 2, 2, 3])):
-        k = rng.randrange(12)
+        k = rng.randrange(15)
         which = 1 if (v[2] is None or rng.random() < 0.7) else 2
         part = v[which]
         if k == 0:                                   # epoch: absent <-> 0 <-> 00, or another number
@@ -543,8 +654,26 @@ def near(rng, v):
         elif k == 10 and len(part) > 1:              # delete a character
             i = rng.randrange(len(part))
             part = part[:i] + part[i + 1:]
+        elif k == 12:                                # re-pad a digit run: boundary numbers of leading zeros
+            runs = [m for m in re.finditer(r"[0-9]+", part)]
+            if runs:
+                m = rng.choice(runs)
+                d = m.group(0).lstrip("0") or "0"
+                d = d[:MAXRUN]
+                part = part[:m.start()] + "0" * min(rng.choice([0, 1] + STRESS_PAD), MAXRUN - len(d)) + d + part[m.end():]
+        elif k == 13:                                # change the LAST digit of the longest digit run (2^53 vs 2^53 + 1)
+            runs = sorted(re.finditer(r"[0-9]+", part), key=lambda m: -len(m.group(0)))
+            if runs:
+                i = runs[0].end() - 1
+                part = part[:i] + rng.choice("0123456789") + part[i + 1:]
+        elif k == 14:                                # the epoch likewise: padded / last digit changed
+            if v[0] is not None:
+                d = v[0].lstrip("0") or "0"
+                if rng.random() < 0.5:
+                    d = d[:-1] + rng.choice("0123456789")
+                v[0] = ("0" * min(rng.choice([0, 1] + STRESS_PAD), MAXRUN - len(d)) + d)[:MAXRUN]
         # k == 11: no edit of the part (identical spelling / only epoch-revision edits)
-        if k >= 2 and v[which] is not None:
+        if 2 <= k <= 13 and v[which] is not None:
             v[which] = part
         v = normalize(v)
     return v
@@ -619,8 +748,9 @@ def record_trace(strs):
 def make_traces(rng, n):
     traces = []
     for t in range(n):
-        a = gen_version(rng)
-        k = rng.random()
+        big = t % 4 == 3                                 # every fourth trace is size-stressed
+        a = gen_version(rng, big=big)
+        k = rng.random() * (0.86 if big else 1.0)        # (at most three such strings per trace)
         if k < 0.40:
             vs = [a, near(rng, a)]
         elif k < 0.50:
@@ -769,7 +899,7 @@ def run(ctx):
     negative_controls(ctx)
 
     # 2. design: bounded-exhaustive configurations; the same runs emit the cases to replay
-    plan = ([("MC_DpkgVersion_parts.cfg", 32), ("MC_DpkgVersion_full.cfg", 64), ("MC_DpkgVersion_triples.cfg", 1)]
+    plan = ([("MC_DpkgVersion_parts.cfg", 16), ("MC_DpkgVersion_full.cfg", 32), ("MC_DpkgVersion_triples.cfg", 1)]
             if quick else
             [("MC_DpkgVersion_parts_thorough.cfg", 300), ("MC_DpkgVersion_full_thorough.cfg", 150),
              ("MC_DpkgVersion_triples_thorough.cfg", 1)])
@@ -793,7 +923,7 @@ def run(ctx):
              cases_per_sign={str(k): v for k, v in per_sign.items()}, pair_visits=n)
 
     # 2b. object layer: closed state space of two mutable objects; assignments replayed
-    name, stride = ("MC_DpkgVersion_obj.cfg", 48) if quick else ("MC_DpkgVersion_obj_thorough.cfg", 90)
+    name, stride = ("MC_DpkgVersion_obj.cfg", 6) if quick else ("MC_DpkgVersion_obj_thorough.cfg", 90)
     offset = rng.randrange(stride)
     r, muts, ops = design_run(ctx, name, stride, offset, module="DpkgVersionObj", tag="MUT")
     n, per_how = replay_muts(ctx, muts, ops, nconc)
@@ -803,7 +933,7 @@ def run(ctx):
     ctx.extra["behaviours_replayed"] = replayed
 
     # 3. code -> spec: recorded comparisons validated by TLC on the concrete code points
-    ntr = 1200 if quick else 8000
+    ntr = 600 if quick else 8000
     traces = make_traces(rng, ntr)
     nev = sum(len(t["events"]) for t in traces)
     bad, nrej = validate(ctx, traces)
